@@ -133,7 +133,7 @@ def _reg():
     add("zonal_stats", 2, lambda r, v: zonal.stats(r[0], r[1], stats_funcs=["mean", "max", "count"] if v % 2 else ["sum", "min"]), table=True, same_backend=True)
     add("zonal_stats_da", 2, lambda r, v: zonal.stats(r[0], r[1], return_type="xarray.DataArray"), own_shape=True, numpy_only=True)
     add("zonal_crosstab", 2, lambda r, v: zonal.crosstab(r[0], r[1]), table=True, same_backend=True)
-    add("zonal_apply", 2, lambda r, v: zonal.apply(r[0], r[1], lambda x: x * 2, nodata=0), mutates_values=1, numpy_only=True, int_first=True)
+    add("zonal_apply", 2, lambda r, v: zonal.apply(r[0], r[1], lambda x: x % 2 + 1, nodata=0), mutates_values=1, numpy_only=True, int_first=True)
     for nm in ("cell_stats", "combine", "lesser_frequency", "equal_frequency", "greater_frequency", "lowest_position", "highest_position", "popularity", "rank"):
         def f(r, v, nm=nm):
             ds = xr.Dataset({"a": r[0], "b": r[1], "c": r[2]})
